@@ -275,7 +275,7 @@ def Lvl (S : Splitter) (p : Params) (b : List Elem) (n : Nat) (r : Range) : Prop
   (r = topRange ∧ depthFuel + 3 ≤ n)
 
 theorem lvl_children (S : Splitter) (p : Params) (b : List Elem) (hokb : TopOk S p b) (m : Nat) (r : Range) (hl : Lvl S p b (m + 1) r) (he : r.els = false)
-    (hs : SplitOk S p.df r.lo r.hi) (hgt : (slRange b r.lo r.hi).length > p.thr) :
+    (hs : SplitOk S p.df r.lo r.hi) (hgt : Div S p b r.lo r.hi) :
     ∀ r', r' ∈ (genTupleRanges r.lo r.hi p.df).map (fun t => (⟨t.1, t.2, false⟩ : Range)) →
       Lvl S p b m r' := by
   intro r' hr'
@@ -285,10 +285,10 @@ theorem lvl_children (S : Splitter) (p : Params) (b : List Elem) (hokb : TopOk S
   rcases hl with ⟨h1, _⟩ | ⟨_, g, hg, hw⟩ | ⟨rfl, hn⟩
   · rw [he] at h1; cases h1
   · cases g with
-    | zero => simp only [WidthOk] at hw; omega
+    | zero => simp only [WidthOk] at hw; exact absurd hgt hw
     | succ g' =>
       rcases hw with h | h
-      · omega
+      · exact absurd hgt h
       · exact Or.inr (Or.inl ⟨rfl, g', by omega, h.2 i hi2⟩)
   · exact Or.inr (Or.inl ⟨rfl, depthFuel, by omega, hokb.2 i hi2⟩)
 
@@ -315,7 +315,7 @@ theorem ans_complete {sl : List Elem} {lo hi : Nat} {w : Bool} {r : RangeRes D}
 
 theorem ans_incomplete {sl : List Elem} {lo hi : Nat} {w : Bool} {r : RangeRes D}
     (h : AnsOk A S p sl lo hi w r) (hc : ¬ r.elems.length = r.count) :
-    w = false ∧ r.elems = [] ∧ ((slRange sl lo hi).length > p.thr → SplitOk S p.df lo hi) := by
+    w = false ∧ r.elems = [] ∧ (Div S p sl lo hi → SplitOk S p.df lo hi) := by
   rcases h.elems with he | h3
   · exfalso; apply hc; rw [he, h.count]; simp [pairs]
   · exact h3
@@ -332,7 +332,7 @@ theorem compareResults_cases (g : Bool) (a b : List Elem) (hoka : TopOk S p a)
     (compareResults A S g (canon A S p a) c r m o
       = { c with prepare := c.prepare ++
             (genTupleRanges r.lo r.hi p.df).map fun t => (⟨t.1, t.2, false⟩ : Range) } ∧
-      SplitOk S p.df r.lo r.hi ∧ r.els = false ∧ (slRange b r.lo r.hi).length > p.thr) := by
+      SplitOk S p.df r.lo r.hi ∧ r.els = false ∧ Div S p b r.lo r.hi) := by
   unfold compareResults
   by_cases hh : m.hash = o.hash
   · left; rw [if_pos hh]; exact ⟨rfl, hh⟩
@@ -350,13 +350,18 @@ theorem compareResults_cases (g : Bool) (a b : List Elem) (hoka : TopOk S p a)
     · rw [if_neg hoc]
       obtain ⟨hw, he, hsplit⟩ := ans_incomplete A S p ho hoc
       by_cases hreq : (o.count ≤ (canon A S p a).p.thr ∧ o.elems.length = 0) ∨ m.elems.length = m.count
+          ∨ S.wide r.lo r.hi (canon A S p a).p.df = false
       · right; right; left; rw [if_pos hreq]; exact ⟨rfl, hw⟩
       · right; right; right
         rw [if_neg hreq]
         have hcnt : ¬ (o.count ≤ p.thr ∧ o.elems.length = 0) := fun h => hreq (Or.inl h)
         rw [he] at hcnt
         simp only [List.length_nil, and_true] at hcnt
-        have hgt : (slRange b r.lo r.hi).length > p.thr := by rw [← ho.count]; omega
+        have hwide : S.wide r.lo r.hi p.df = true := by
+          cases hq : S.wide r.lo r.hi p.df with
+          | true => rfl
+          | false => exact absurd (Or.inr (Or.inr hq)) hreq
+        have hgt : Div S p b r.lo r.hi := ⟨by rw [← ho.count]; omega, hwide⟩
         exact ⟨rfl, hsplit hgt, hw, hgt⟩
 
 variable (hf : Nat → Nat) (a b : List Elem) (g wire : Bool)
